@@ -120,6 +120,7 @@ type Model struct {
 	cDropped   map[string]bool
 	cHome      map[string]int
 	coreSeq    int
+	degraded   bool
 	readingOut [2]bool // C07: readings of "last response" contradicted so far in this run
 	aggKnown   bool
 	pd         *donePending
@@ -206,7 +207,10 @@ func NewModel(s *Sim) *Model {
 
 //go:norace
 func (m *Model) v(prop, rule, facts, msg string, op int) {
-	if m.track {
+	if m.track && !(m.degraded && prop == "C04" && (rule == "missing-publication" || rule == "published-state-mismatch" || rule == "inert-report-had-effect")) {
+		// degraded serial runs (a live connection was shut down under the pool):
+		// C04 quantifies over "shutdowns in any order", its callback-level clauses
+		// stay judged; nothing else does
 		return
 	}
 	sig := prop + "|" + rule
@@ -452,6 +456,9 @@ func (m *Model) opStart(ev Event) {
 				ch.repl = -1
 				ch.refreshing = false
 				ch.state = connectivity.Ready
+				// a channel whose connection had been shut down under the pool and that
+				// was refreshed through a superseded picker is a pool member again
+				ch.gone = false
 				ch.k[0]++
 				ch.k[1]++
 				ch.lastResp[0] = ev.At
